@@ -55,6 +55,8 @@ theorem asm_operands_fit (a : Arch) (i : Instr) (w : Bits) (h : asm a i = .ok w)
           | .inp, .inp k => k < a.n
           | .out, .out k => k < a.m
           | .reg, _ | .inp, _ | .out, _ => False
+          | .so kind short, .so s k => s = short ∧ k < a.sharedNum kind
+          | .so _ _, _ => False
           | _, .num _ => True
           | _, _ => False) := by
   obtain ⟨idx, fs, body, _, hlay, hbody, _, hbl, _, _⟩ := asm_ok_inv h
@@ -100,7 +102,7 @@ theorem asm_operands_fit (a : Arch) (i : Instr) (w : Bits) (h : asm a i = .ok w)
   obtain ⟨hw1, hfit⟩ := encField_exact_iff.mp hexact
   obtain ⟨bb, henc⟩ := hkind hbody j f x hf hx
   refine ⟨hfit, hw1, ?_⟩
-  cases f <;> cases x <;> simp [encOperand] at henc ⊢ <;> first | exact henc.1 | trivial
+  cases f <;> cases x <;> simp [encOperand] at henc ⊢ <;> first | exact henc.1 | trivial | exact henc.1.1
 
 /-- concretely for numbers: an immediate / address that needs more bits than its field is refused -/
 theorem asm_rejects_overflow (a : Arch) (op : String) (pre post : List Operand) (n : Nat)
@@ -115,18 +117,22 @@ theorem asm_rejects_overflow (a : Arch) (op : String) (pre post : List Operand) 
     simp [normalise, hlen]
   exact hbig (hall pre.length f (.num n) hf hx).1
 
-/-- a register index beyond the register file, or a port index beyond N / M, is refused -/
+/-- a register index beyond the register file, a port index beyond N / M, or the name of a shared
+    object the processor is not attached to (wrong kind prefix, index ≥ the number of such objects), is refused -/
 theorem asm_rejects_bad_index (a : Arch) (i : Instr) (w : Bits) (h : asm a i = .ok w)
     (j : Nat) (fs : List FieldKind) (hlay : layout i.op = some fs) :
     (∀ k, fs[j]? = some .reg → (normalise i).args[j]? = some (.reg k) → k < 2 ^ a.r) ∧
     (∀ k, fs[j]? = some .inp → (normalise i).args[j]? = some (.inp k) → k < a.n) ∧
-    (∀ k, fs[j]? = some .out → (normalise i).args[j]? = some (.out k) → k < a.m) := by
+    (∀ k, fs[j]? = some .out → (normalise i).args[j]? = some (.out k) → k < a.m) ∧
+    (∀ kind short s k, fs[j]? = some (.so kind short) → (normalise i).args[j]? = some (.so s k) →
+      s = short ∧ k < a.sharedNum kind) := by
   obtain ⟨fs', hlay', _, hall⟩ := asm_operands_fit a i w h
   rw [hlay] at hlay'; cases hlay'
-  refine ⟨?_, ?_, ?_⟩
+  refine ⟨?_, ?_, ?_, ?_⟩
   · intro k hf hx; exact (hall j _ _ hf hx).1
   · intro k hf hx; exact (hall j _ _ hf hx).2.2
   · intro k hf hx; exact (hall j _ _ hf hx).2.2
+  · intro kind short s k hf hx; exact (hall j _ _ hf hx).2.2
 
 /-- the word is wide enough for every opcode of the architecture (automatic word size) -/
 theorem maxWord_ge_len (a : Arch) (h : a.wordSize = 0) (op : String) (hop : op ∈ a.ops) :
@@ -200,5 +206,14 @@ example : (asmProgram demoArch [none, some ⟨"rset", [.reg 3, .num 255]⟩, non
     (fun ws => (ws.length, ws.map List.length)) = some (2, [13, 13]) := by decide
 /-- nine instructions do not fit a ROM of 2^3 words -/
 example : (asmProgram demoArch (List.replicate 9 (some ⟨"j", [.num 0]⟩))).toOption = none := by decide
+
+
+/-- shared-object operands: two queues need one index bit; `q1` is the second queue, `q2` and `st0` are refused -/
+def demoArchSo : Arch :=
+  { rsize := 8, r := 1, n := 0, m := 0, l := 0, o := 2, ops := ["q2r", "r2q", "rset"], shared := [("queue", 2)] }
+example : (asm demoArchSo ⟨"r2q", [.reg 1, .so "q" 1]⟩).toOption = some (ofString01 "01110000000") := by decide
+example : disasm demoArchSo (ofString01 "01110000000") = some ⟨"r2q", [.reg 1, .so "q" 1]⟩ := by decide
+example : (asm demoArchSo ⟨"r2q", [.reg 1, .so "q" 2]⟩).toOption = none := by decide
+example : (asm demoArchSo ⟨"r2q", [.reg 1, .so "st" 0]⟩).toOption = none := by decide
 
 end BMV.Props.C03
